@@ -214,11 +214,28 @@ func c14Defaults(c *Ctx, withOrder bool) {
 			} else {
 				// the defaults map itself must not be written
 				written := false
+				var shallow ssa.Instruction
 				eachInstr(cl, func(i ssa.Instruction) {
 					if mu, ok := i.(*ssa.MapUpdate); ok && isDefaultsMap(mu.Map) {
 						written = true
 					}
+					// maps.Copy(dst, defaults) / maps.Clone(defaults): the copy holds the very value slices of the defaults
+					if call, ok := i.(*ssa.Call); ok {
+						if n := callName(&call.Call); strings.HasPrefix(n, "maps.Copy") || strings.HasPrefix(n, "maps.Clone") {
+							src := call.Call.Args[len(call.Call.Args)-1]
+							if strings.HasPrefix(n, "maps.Clone") {
+								src = call.Call.Args[0]
+							}
+							if isDefaultsMap(src) || isDefaultsMap(stripConv(src)) {
+								shallow = call
+							}
+						}
+					}
 				})
+				if shallow != nil {
+					c.Fail(key, rBorrow, "the defaults are copied shallowly ("+callName(&shallow.(*ssa.Call).Call)+"): every target's header then holds the default value slices themselves, and a target's own value appended under the same key is written into the array all of them share", c.at(shallow))
+					continue
+				}
 				c.Check(!written, key, rBorrow, fmt.Sprintf("%d values derived from the defaults, none reaches a mutating sink", len(res.Tainted)), "the defaults map itself is written", c.fnAt(cl))
 			}
 		}
